@@ -86,6 +86,9 @@ enum Observer {
     Recv,
     TryRecv,
     Select,
+    /// try_recv_timeout(20 ms) in a loop; with a survivor, its message is sent only 400 ms after observation starts, so that
+    /// the receiver meets the truncated message with nothing complete queued behind it
+    Timed,
 }
 
 fn run_one(sys: usize, len: usize, natt: usize, survivor: bool, obs: Observer, k: usize, id: String) -> (Case, usize) {
@@ -136,12 +139,22 @@ fn run_one(sys: usize, len: usize, natt: usize, survivor: bool, obs: Observer, k
     let (ptx, prx) = platform::channel().unwrap();
     // (more descriptors than the interrupted message's first packet carried: a control buffer re-used after the discard
     // must still have room for all of them)
+    let mut late_sender = None;
     if let Some(s) = &surv {
         let mut atts = vec![OsIpcChannel::Sender(ptx.clone())];
         for _ in 0..3 {
             atts.push(OsIpcChannel::Sender(ptx.clone()));
         }
-        s.send(&sentinel, atts, vec![]).unwrap();
+        if obs == Observer::Timed {
+            let s2 = s.clone();
+            let sent2 = sentinel.clone();
+            late_sender = Some(std::thread::spawn(move || {
+                std::thread::sleep(std::time::Duration::from_millis(400));
+                let _ = s2.send(&sent2, atts, vec![]);
+            }));
+        } else {
+            s.send(&sentinel, atts, vec![]).unwrap();
+        }
     }
     drop(ptx);
     let deadline = std::time::Instant::now() + std::time::Duration::from_secs(8);
@@ -215,6 +228,71 @@ fn run_one(sys: usize, len: usize, natt: usize, survivor: bool, obs: Observer, k
             if std::time::Instant::now() > deadline {
                 case.fail("try_recv() polling saw neither the expected messages nor disconnection within 8 s".into());
                 break;
+            }
+        },
+        Observer::Timed => {
+            // run in a helper thread so that a call that blocks beyond its time-out is seen by the watchdog
+            let (tx_r, rx_r) = std::sync::mpsc::channel();
+            std::thread::spawn(move || loop {
+                let t0 = std::time::Instant::now();
+                let r = rx.try_recv_timeout(std::time::Duration::from_millis(20));
+                let el = t0.elapsed();
+                match r {
+                    Ok((d, ch, sh)) => {
+                        let fin = d == b"__survivor__";
+                        let _ = tx_r.send((Some((d, ch, sh.len())), false, el, String::new()));
+                        if fin {
+                            break;
+                        }
+                    },
+                    Err(e) if e.channel_is_closed() => {
+                        let _ = tx_r.send((None, true, el, String::new()));
+                        break;
+                    },
+                    Err(e) => {
+                        let s = format!("{:?}", e);
+                        let empty = s.contains("Errno(11)");
+                        let _ = tx_r.send((None, false, el, if empty { String::new() } else { s }));
+                        if !empty {
+                            break;
+                        }
+                    },
+                }
+            });
+            loop {
+                match rx_r.recv_timeout(std::time::Duration::from_secs(8)) {
+                    Ok((m, cl, el, err)) => {
+                        if el > std::time::Duration::from_millis(250) && m.is_none() && !cl {
+                            case.fail(format!("try_recv_timeout(20 ms) returned only after {:?} (it met a truncated message and then waited without a time-out)", el));
+                        }
+                        if let Some((d, ch, ns)) = m {
+                            // a message may legitimately take longer only if it was being reassembled; 250 ms is ample here
+                            if el > std::time::Duration::from_millis(250) && d == sentinel {
+                                case.fail(format!("try_recv_timeout(20 ms) blocked for {:?} until the next message arrived instead of reporting empty", el));
+                            }
+                            got.push(d);
+                            got_att.push((ch, ns));
+                        }
+                        if cl {
+                            closed = true;
+                        }
+                        if !err.is_empty() {
+                            errors.push(err);
+                            break;
+                        }
+                    },
+                    Err(_) => {
+                        case.fail("try_recv_timeout(20 ms) did not return within 8 s".into());
+                        break;
+                    },
+                }
+                if finished(&got, closed) {
+                    break;
+                }
+                if std::time::Instant::now() > deadline + std::time::Duration::from_secs(2) {
+                    case.fail("timed polling saw neither the expected messages nor disconnection within 10 s".into());
+                    break;
+                }
             }
         },
         Observer::Select => {
@@ -337,6 +415,9 @@ fn run_one(sys: usize, len: usize, natt: usize, survivor: bool, obs: Observer, k
     case.tags.push(format!("survivor={}", survivor as u8));
     case.tags.push(format!("crashed={}", crashed as u8));
     case.tags.push(format!("delivered_interrupted={}", delivered_interrupted as u8));
+    if let Some(h) = late_sender {
+        let _ = h.join();
+    }
     drop(surv);
     (case, ncalls)
 }
@@ -465,12 +546,12 @@ pub fn run(args: &[String]) {
         }
         for natt in [0usize, 1] {
             for survivor in [false, true] {
-                for obs in [Observer::Recv, Observer::TryRecv, Observer::Select] {
+                for obs in [Observer::Recv, Observer::TryRecv, Observer::Select, Observer::Timed] {
                     if let Some(o) = arg(args, "--observer") {
                         if format!("{:?}", obs).to_lowercase() != o {
                             continue;
                         }
-                    } else if !thorough && natt == 1 && obs != Observer::Recv {
+                    } else if !thorough && (obs == Observer::Timed || (natt == 1 && obs != Observer::Recv)) {
                         continue;
                     }
                     let mut k = 0;
